@@ -9,6 +9,7 @@ REQUIRED = [P + n for n in """representable_iff int_accessor_ok int_accessor_ove
 int_accessor_neg_rejected int_accessor_exact ranges int_range int_of_i128_exact int_of_u128_exact int_of_i64_exact int_of_u64_exact
 int_to_unsigned_exact int_to_u64_exact int_to_u128_exact int_to_i64_exact int_to_signed_exact int_to_i128_exact""".split()]
 PACKAGES = ["hcore"]
+DEBUG_TWINS = True
 ACCS = ["u8", "u16", "u32", "u64", "i8", "i16", "i32", "i64", "int", "char"]
 RANGE = {"u8": (0, 255), "u16": (0, 65535), "u32": (0, 2**32 - 1), "u64": (0, 2**64 - 1),
          "i8": (-128, 127), "i16": (-2**15, 2**15 - 1), "i32": (-2**31, 2**31 - 1), "i64": (-2**63, 2**63 - 1),
